@@ -46,7 +46,11 @@ async def _run(rng, desc):
         link.tap.listeners.append(lambda ev, i=i: world.events.append(
             {'t': ev[0], 'kind': 'wire', 'ep': ev[1], 'dir': ev[2], 'f': ev[3], 'conn': i, 'i': len(world.events)}))
         h = ScriptedHandler(world, 's', driver)
-        server = RSocketServer(link.transports['s'], handler_factory=lambda: h)
+        skw = {}
+        if desc.get('lease'):
+            from .c14 import ScriptedLeasePublisher
+            skw['lease_publisher'] = ScriptedLeasePublisher([tuple(desc['lease'])])
+        server = RSocketServer(link.transports['s'], handler_factory=lambda: h, **skw)
         c = {'link': link, 'server': server, 'handler': h, 'index': i}
         conns.append(c)
         world.log('provider_asked', conn=i)
@@ -61,7 +65,7 @@ async def _run(rng, desc):
 
     hc = ScriptedHandler(world, 'c', driver)
     client = RSocketClient(provider(), handler_factory=lambda: hc, keep_alive_period=timedelta(seconds=P),
-                           max_lifetime_period=timedelta(seconds=L))
+                           max_lifetime_period=timedelta(seconds=L), honor_lease=bool(desc.get('lease')))
     where = desc['reconnect_from']
 
     async def on_close_hook(rs):
